@@ -123,8 +123,10 @@ def evaluate(case):
                 break
             if on_node and not abs(m_i - 1) <= 1e-12:
                 viol.append(V("from_table/m_i", f"m_i = {m_i!r} at a table node, expected 1", case=case))
-            if not on_node and not 1 - 1e-12 <= m_i <= 1 + 1e-3:
-                viol.append(V("from_table/m_i", f"m_i = {m_i!r} between nodes, expected within [1, 1+1e-3]", case=case))
+            a_, b_ = want[i_node], want[i_node + 1]
+            bound = (b_ - a_) ** 2 / (4 * a_ * b_)  # (la + (1-l)b)(l/a + (1-l)/b) <= 1 + (b-a)^2/(4ab)
+            if not on_node and not 1 - 1e-12 <= m_i <= 1 + bound * (1 + 1e-9) + 1e-12:
+                viol.append(V("from_table/m_i", f"m_i = {m_i!r} between nodes, expected within [1, 1 + {bound:.3g}]", case=case))
             for frac in (0.0, 0.3, 0.999):
                 p_f = p[1] + frac * (p_i - p[1])
                 v = float(fl.m_scaled_func(p_f))
